@@ -718,6 +718,34 @@ theorem chunkOf_small {nnode : Int} (h0 : 0 ≤ nnode) (h1 : nnode < 2 ^ 31) : c
   rw [this]
   exact wrap32_of_int32 (by unfold int32; constructor <;> omega)
 
+theorem scalarPlan_fixed_ok {n : Nat} {bs : Bytes} {dim : Nat} {next nnode : Int} {ldim : Nat} {s : Bytes}
+    (hp : scalarPlan Cfg.fixed n bs = .ok (dim, next, nnode, ldim, s)) :
+    0 ≤ nnode ∧ nnode < 2 ^ 31 ∧ nnode * ldim * 8 ≤ (s.length : Int) ∧ s.length ≤ bs.length := by
+  unfold scalarPlan at hp
+  cases h1 : solPrefix Cfg.fixed bs with
+  | error e => simp [h1] at hp
+  | ok p1 =>
+  obtain ⟨v, dim', next', nnode', ntype, s1⟩ := p1
+  simp only [h1] at hp
+  cases h2 : rdTypes (fun t => if t = 1 then some 1 else if t = 2 then some dim' else none) ntype.toNat 0 s1 with
+  | error e => simp [h2] at hp
+  | ok p2 =>
+  obtain ⟨ldim', s2⟩ := p2
+  simp only [h2] at hp
+  split at hp
+  · simp at hp
+  · split at hp
+    · simp at hp
+    · rename_i hchk
+      injection hp with hp
+      simp only [Prod.mk.injEq] at hp
+      obtain ⟨_, _, rfl, rfl, rfl⟩ := hp
+      have hc : 0 ≤ nnode' ∧ nnode' < 2 ^ 31 ∧ nnode' * ldim' * 8 ≤ (s2.length : Int) := by
+        by_contra hc; exact hchk ⟨rfl, hc⟩
+      have l1 := solPrefix_len h1
+      have l2 := rdTypes_len h2
+      exact ⟨hc.1, hc.2.1, hc.2.2, by omega⟩
+
 theorem scalarAlloc_fixed_le (n : Nat) (bs : Bytes) : scalarAlloc Cfg.fixed n bs ≤ (bs.length : Int) := by
   unfold scalarAlloc
   cases hp : scalarPlan Cfg.fixed n bs with
@@ -725,34 +753,30 @@ theorem scalarAlloc_fixed_le (n : Nat) (bs : Bytes) : scalarAlloc Cfg.fixed n bs
   | ok p =>
     obtain ⟨dim, next, nnode, ldim, s⟩ := p
     dsimp only
-    unfold scalarPlan at hp
-    cases h1 : solPrefix Cfg.fixed bs with
-    | error e => simp [h1] at hp
-    | ok p1 =>
-    obtain ⟨v, dim', next', nnode', ntype, s1⟩ := p1
-    simp only [h1] at hp
-    cases h2 : rdTypes (fun t => if t = 1 then some 1 else if t = 2 then some dim' else none) ntype.toNat 0 s1 with
-    | error e => simp [h2] at hp
-    | ok p2 =>
-    obtain ⟨ldim', s2⟩ := p2
-    simp only [h2] at hp
-    split at hp
-    · simp at hp
-    · split at hp
-      · simp at hp
-      · rename_i hchk
-        injection hp with hp
-        simp only [Prod.mk.injEq] at hp
-        obtain ⟨_, _, rfl, rfl, rfl⟩ := hp
-        have hc : 0 ≤ nnode' ∧ nnode' < 2 ^ 31 ∧ nnode' * ldim' * 8 ≤ (s2.length : Int) := by
-          by_contra hc; exact hchk ⟨rfl, hc⟩
-        obtain ⟨c0, c1, c2⟩ := hc
-        have l1 := solPrefix_len h1
-        have l2 := rdTypes_len h2
-        unfold scalarAllocRequest
-        rw [chunkOf_small c0 c1]
-        split
-        · omega
-        · nlinarith
+    obtain ⟨c0, c1, c2, l⟩ := scalarPlan_fixed_ok hp
+    unfold scalarAllocRequest
+    rw [chunkOf_small c0 c1]
+    split
+    · omega
+    · nlinarith
+
+/-- FIXED reader: the vertex loop never runs without data behind it (skipped when `ldim = 0`) -/
+theorem scalarIdle_fixed_zero (n : Nat) (bs : Bytes) : scalarIdleIterations Cfg.fixed n bs = 0 := by
+  unfold scalarIdleIterations
+  cases hp : scalarPlan Cfg.fixed n bs with
+  | error e => rfl
+  | ok p =>
+    obtain ⟨dim, next, nnode, ldim, s⟩ := p
+    simp [Cfg.fixed]
+
+/-- FIXED reader: with data behind it the loop runs at most `file size / 8` times -/
+theorem scalarLoop_fixed_le {n : Nat} {bs : Bytes} {dim : Nat} {next nnode : Int} {ldim : Nat} {s : Bytes}
+    (hp : scalarPlan Cfg.fixed n bs = .ok (dim, next, nnode, ldim, s)) (hl : 0 < ldim) :
+    nnode * 8 ≤ (bs.length : Int) := by
+  obtain ⟨c0, _, c2, l⟩ := scalarPlan_fixed_ok hp
+  have : nnode * 8 ≤ nnode * ldim * 8 := by
+    have : (1 : Int) ≤ ldim := by exact_mod_cast hl
+    nlinarith
+  omega
 
 end Refine.Lemmas.Codec
